@@ -87,7 +87,9 @@ Proof.
   - rewrite (hd_app_ne d1 _ 0 N1). destruct d1 as [|y r]; [congruence|]. cbn [hd forallb] in *. apply andb_true_iff in D1. destruct D1 as [Hy _].
     unfold is_digit in Hy. apply negb_true_iff. lia.
   - change ([46] ++ d2 ++ [46] ++ d3 ++ [46] ++ d4) with (46 :: d2 ++ 46 :: d3 ++ 46 :: d4).
-    replace (d1 ++ 46 :: d2 ++ 46 :: d3 ++ 46 :: d4) with ((d1 ++ 46 :: d2 ++ 46 :: d3 ++ [46]) ++ d4) by (rewrite <- !app_assoc; cbn [app]; rewrite <- !app_assoc; reflexivity).
+    assert (E4 : d1 ++ 46 :: d2 ++ 46 :: d3 ++ 46 :: d4 = (d1 ++ 46 :: d2 ++ 46 :: d3 ++ [46]) ++ d4).
+    { repeat (rewrite <- ?app_assoc; cbn [app]). reflexivity. }
+    rewrite E4.
     rewrite (last_app_ne _ d4 0 N4). destruct (exists_last N4) as [l [y E]]. rewrite E, last_last.
     rewrite E in D4. rewrite forallb_app in D4. apply andb_true_iff in D4. destruct D4 as [_ D4]. cbn [forallb] in D4.
     rewrite andb_true_r in D4. unfold is_digit in D4. apply negb_true_iff. lia.
@@ -277,7 +279,8 @@ Section Numeric.
   Proof using.
     intros Ha. destruct (digdot_facts _ (IPv4String_chars a)) as [F1 [F2 [F3 [F4 _]]]].
     unfold web_host4, h4. rewrite F2, (IPv4String_dots_ok a), F1, F3, F4, (IPv4String_ends' a).
-    rewrite (IPv4String_agree a Ha), (ipv4_roundtrip a Ha). split; reflexivity.
+    assert (Ep : S4.ipv4_parse (IPv4String a) = Some a) by (rewrite (IPv4String_agree a Ha); apply (ipv4_roundtrip a Ha)).
+    rewrite Ep. split; reflexivity.
   Qed.
 
   Corollary web_host4_val t : web_host4 t = true ->
@@ -309,7 +312,7 @@ Section Numeric.
     exists r, a. split; [reflexivity|]. split; [exact H1'|]. split.
     - unfold dots_ok. rewrite H2. cbn [is_nil hd negb]. replace (91 =? 46) with false by reflexivity.
       apply has_suffix_93 in H1'. destruct H1' as [s' Es]. rewrite Es, last_last. reflexivity.
-    - split; [reflexivity|]. split; [apply (ipv6_parse_ok _ _ E)|]. unfold h6. rewrite E. reflexivity.
+    - split; [exact E|]. split; [apply (ipv6_parse_ok _ _ E)|]. unfold h6. rewrite E. reflexivity.
   Qed.
 
   Theorem web_host6_exact u t ns : web_host6 t = true -> parseHost idna_raw c u t ns = Ok u (h6 t).
